@@ -270,12 +270,42 @@ Definition judge (p : str) (sfx : option str) (rules : list rule) (expires : lis
                                 else w_forbidden w
                     | None => w_forbidden w
                     end in
+  let v05 :=
+      let kind := cobs_kind o in
+      let st := cobs_status o in
+      let aborted := sx_bool (sx_nth 4 (sx_nth 0 o)) in
+      if str_eqb kind (bytes "recovered") then verdict false "an empty 200: a panic in the handler was swallowed"
+      else if str_eqb kind (bytes "bare") || str_eqb kind (bytes "error-json") then
+        if st <? 400 then verdict false "rrrouter's own answer is not an error status"
+        else match lr with
+             | Some r => if plain && negb (st =? 407) then verdict false "rrrouter answered by itself although the origin had responded" else v_ok
+             | None => v_ok
+             end
+      else if str_eqb kind (bytes "origin") then
+        match lr, cobs_log o with
+        | Some r, _ :: _ =>
+          if negb plain then v_ok else
+          let declared := parse_int (hget (rs_hdrs r) (bytes "content-length")) in
+          let origin_lies := match declared with Some n => negb (n =? Z.of_nat (length (rs_body r))) | None => false end in
+          let bodyless := str_eqb (q_method q) (bytes "HEAD") || (rs_status r =? 204) || (rs_status r =? 304) in
+          if negb (st =? rs_status r) then verdict false "the client did not receive the origin's status"
+          else if aborted && negb origin_lies then verdict false "the response was cut short of its declared length"
+          else if negb bodyless && negb origin_lies && negb (str_eqb (cobs_body o) (rs_body r)) then verdict false "the client did not receive the origin's full body"
+          else if negb (forallb (fun kv => replay_exempt rule (fst kv) || strs_eqb (hvalues (cobs_hdrs o) (fst kv)) (map (fun v => trim v [32%N; 9%N]) (snd kv))) (rs_hdrs r))
+          then verdict false "an origin header was changed or lost"
+          else if negb (forallb (fun kv => replay_exempt rule (fst kv) || hhas (rs_hdrs r) (fst kv) || str_eqb (to_lower (fst kv)) (bytes "content-type")) (cobs_hdrs o))
+          then verdict false "the response carries a header neither the origin sent nor rrrouter documents"
+          else v_ok
+        | _, _ => v_ok
+        end
+      else v_ok in
   let v_done := if str_eqb (cobs_kind o) (bytes "no-response")
                 then verdict false "the request never completed (unbounded internal recursion against the origin)" else v_ok in
   let v := if str_eqb p (bytes "C08") then first_fail [v_done; v08]
            else if str_eqb p (bytes "C07") then v07
            else if str_eqb p (bytes "C10") then first_fail [v10; v10b]
            else if str_eqb p (bytes "C09") then first_fail [v09; v09b]
+           else if str_eqb p (bytes "C05") then first_fail [v_done; v05]
            else v_ok in
   (v, mkW now sc' store' (cobs_disk o) forbidden').
 
